@@ -198,6 +198,63 @@ Proof.
 Qed.
 
 
+(* ---- wigm with one seat ---- *)
+Lemma wigm_one_seat (Qb Qc : est -> Prop) q : wigm_quota A cfg = Ok q -> 0 <= R q ->
+  T3 (fun s => Pre A S ZL B s /\ (forall c, In c (cands s) -> cst c <> Elected) /\ HopM s /\ R q <= stand A S ZL (ballots s) m)
+     (wigm A cfg) SatE Qb Qc.
+Proof.
+  intros Eq Hq. unfold wigm. rewrite Eq.
+  eapply t_seq with (M := JM).
+  { apply t_do_nc. intros s (P & Hne & Hm & Hst) Hc. destruct (begin_hq q TBegin "Begin Count" s P Hne Hm Hq Hst Hc) as (H1 & H2 & H3 & H4).
+    split; [exact H1|split; [exact H4|right; split; assumption]]. }
+  eapply t_seq with (M := fun s => JM s /\ guard_main A cfg s = false).
+  { eapply t_post; [|apply (t_while est (@crashed A) JM (fun _ => False))].
+    - intros s [H|H]; [contradiction|exact H].
+    - eapply t_seq with (M := JM).
+      { apply t_do. intros s [(Hnd & He & Hj) _]. pose proof (f_new_round A cfg s s (R_refl A s)) as Hr.
+        split; [exact (nd_R A _ _ Hr Hnd)|split; [unfold ExM; rewrite <- (R_cids A _ _ Hr); exact He|]].
+        destruct Hj as [Hs|[Hs He0]]; [left; exact (r_satE _ _ Hr Hs)|right]. unfold new_round. split.
+        - intros c Hc Em. rewrite (cands_log A cfg) in Hc. rewrite (quota_log' A cfg). exact (Hs c Hc Em).
+        - unfold eln. rewrite (cands_log A cfg). exact He0. }
+      eapply t_seq with (M := fun s => NoDup (map (@cid A) (cands s)) /\ ExM s /\ SatE s).
+      { apply t_do. intros s (Hnd & He & Hj). pose proof (f_elect_with_quota A cfg s (has_quota_exact A) (fun _ _ => true) None (fun _ => true) s (R_refl A s) Hnd) as Hr.
+        split; [exact (nd_R A _ _ Hr Hnd)|split; [unfold ExM; rewrite <- (R_cids A _ _ Hr); exact He|]].
+        destruct Hj as [Hs|[Hs _]]; [exact (r_satE _ _ Hr Hs)|]. apply ewq_elects_m; [intros t c; unfold has_quota_exact; rewrite Hex; reflexivity|exact Hs]. }
+      apply t_ite.
+      + apply t_do. intros s [(Hnd & He & Hs) _]. apply jm_R; [apply f_transfer_high; [apply bt_simple_ok|apply R_refl|exact Hnd]|assumption..].
+      + apply t_ite; [|apply t_skip'; intros s [[(Hnd & He & Hs) _] _]; split; [exact Hnd|split; [exact He|left; exact Hs]]].
+        apply t_do. intros s [[(Hnd & He & Hs) _] _]. apply jm_R; [apply f_wigm_defeat; [apply R_refl|exact Hnd]|assumption..]. }
+  eapply t_seq with (M := fun s => JM s /\ guard_main A cfg s = false).
+  { apply t_do. intros s [(Hnd & He & Hj) Hg]. destruct Hj as [Hs|[Hs He0]].
+    - split; [apply jm_R; [apply f_unpend_all; [apply R_refl|exact Hnd]|assumption..]|].
+      assert (Esl: TerminateQpq.sl A (unpend_all A cfg s) = TerminateQpq.sl A s).
+      { unfold unpend_all. generalize (pendings A s) as L. intros L. revert s Hnd He Hs Hg. induction L as [|c L IH]; intros s Hnd He Hs Hg; cbn [fold_left]; [reflexivity|].
+        assert (E1: TerminateQpq.sl A (unpend A cfg (cid c) None s) = TerminateQpq.sl A s).
+        { unfold unpend. destruct (find_cand A (cands s) (cid c)) as [c0|] eqn:Ef; [|reflexivity]. destruct (is_pending A c0) eqn:Ep; [|reflexivity].
+          unfold TerminateQpq.sl, upd. cbn [cands set_cands]. unfold upd_cand. rewrite map_map. apply map_ext_in. intros x Hx.
+          destruct (Z.eqb (cid x) (cid c)) eqn:E; [|reflexivity]. cbn [cid cst with_st]. f_equal.
+          assert (x = c0) by (apply (find_cand_unique A (cands s) (cid c) c0 x Hnd Ef Hx); lia). subst x.
+          unfold is_pending, in_state in Ep. destruct (cst c0); cbn in Ep; try discriminate. reflexivity. }
+        pose proof (f_unpend A cfg s (cid c) None s (R_refl A s) Hnd) as Hr.
+        rewrite IH; [exact E1|exact (nd_R A _ _ Hr Hnd)|unfold ExM; rewrite <- (R_cids A _ _ Hr); exact He|exact (r_satE _ _ Hr Hs)|].
+        unfold guard_main, seats_left in *. rewrite nlen_electeds, nlen_hopefuls in *. destruct (counts_sl4 A _ _ E1) as (_ & F2 & F3 & _). rewrite F2, F3. exact Hg. }
+      unfold guard_main, seats_left in *. rewrite nlen_electeds, nlen_hopefuls in *. destruct (counts_sl4 A _ _ Esl) as (_ & F2 & F3 & _). rewrite F2, F3. exact Hg.
+    - unfold unpend_all. rewrite (pendings_nil s He0). cbn [fold_left]. split; [split; [exact Hnd|split; [exact He|right; split; assumption]]|exact Hg]. }
+  apply t_do. intros s [(Hnd & He & Hj) Hg]. destruct Hj as [Hs|[Hs He0]].
+  - exact (r_satE _ _ (f_elect_or_defeat A cfg s s (R_refl A s) Hnd) Hs).
+  - unfold ExM in He. apply in_map_iff in He. destruct He as (cm & Eid & Hcm). destruct (Hs cm Hcm Eid) as [Hh _].
+    assert (Hin: In cm (hopefuls A s)) by (unfold hopefuls; apply filter_In; split; [exact Hcm|unfold in_state; rewrite Hh; reflexivity]).
+    assert (Hlen: List.length (hopefuls A s) = 1%nat).
+    { unfold guard_main, seats_left in Hg. rewrite nlen_electeds, He0, Hseat in Hg. cbn in Hg. rewrite andb_true_r in Hg. apply Z.ltb_ge in Hg.
+      unfold nlen in Hg. destruct (hopefuls A s) as [|x [|y l]]; [contradiction|reflexivity|cbn [List.length] in Hg; lia]. }
+    unfold elect_or_defeat_remaining. destruct (hopefuls A s) as [|x [|y l]]; try discriminate. destruct Hin as [->|[]]. cbn [fold_left].
+    rewrite nlen_electeds, He0, Hseat. cbn [Z.of_nat Z.ltb Z.compare]. cbv iota.
+    intros c' Hc' Em. unfold elect in Hc'. destruct (find_cand A (cands s) (cid cm)) as [c0|] eqn:Ef.
+    + rewrite (cands_log A cfg) in Hc'. unfold upd in Hc'. cbn [cands set_cands] in Hc'. destruct (in_upd_cand A _ _ _ c' Hc') as (c1 & Hc1 & ->).
+      destruct (Z.eqb (cid c1) (cid cm)) eqn:E; [reflexivity|]. exfalso. cbn [cid] in Em. apply Z.eqb_neq in E. congruence.
+    + exfalso. destruct (find_cand_in A (cands s) (cid cm)) as [y Hy]; [apply in_map; exact Hcm|congruence].
+Qed.
+
 (* ---- the Scottish rule with one seat: the main loop always runs, and its first step is the election step ---- *)
 Lemma scot_one_seat (Qb Qc : est -> Prop) : 0 <= R (integer_droop_quota A cfg) ->
   T3 (fun s => Pre A S ZL B s /\ (forall c, In c (cands s) -> cst c <> Elected) /\ HopM s /\ R (integer_droop_quota A cfg) <= stand A S ZL (ballots s) m)
@@ -335,6 +392,43 @@ Proof.
     - eapply t_seq with (M := SatE A m); [cbn [rule_cmd]; apply (scot_one_seat A S ZL cfg Hex m (S * ballot_total pr))|].
       + rewrite Rq. nia.
       + apply t_do. intros s0 Hs c Hc Em. rewrite (Status.cands_log A cfg) in Hc. exact (Hs c Hc Em). }
+  specialize (Ht fuel _ s k eq_refl He). destruct k; try contradiction. exact Ht.
+Qed.
+
+(* wigm (every option), one seat *)
+Theorem count_majority_wigm (pr : profile) m fuel s k : wf_profile pr -> cf_nballots cfg = ballot_total pr ->
+  (exists pc, In pc (pr_cands pr) /\ pc_cid pc = m /\ pc_withdrawn pc = false) ->
+  ballot_total pr < 2 * first_prefs pr m ->
+  exec (@crashed A) fuel (count_cmd A cfg RWigm) (init_state A cfg pr) = Some (s, k) -> k <> Abort ->
+  forall c, In c (cands s) -> cid c = m -> cst c = Elected.
+Proof.
+  intros Hwf Hnbt (pc & Hpc & Epc & Hwd) Hmaj He Hk.
+  assert (Hns: 0 <= cf_nseats cfg) by (rewrite Hseat; lia).
+  destruct (wigm_quota_value A S ZL cfg Hns Heps Hex) as (q & Eq & Rq). rewrite Hseat, Hnbt in Rq. pose proof (S_pos A S ZL) as HS.
+  assert (Hbt: 0 <= ballot_total pr).
+  { unfold ballot_total. clear -Hwf. destruct Hwf as [_ Hb]. induction (pr_ballots pr) as [|[mu r] l IH]; cbn [fold_right fst snd]; [lia|].
+    assert (0 <= fold_right (fun mr acc => match snd mr with [] => 0 | _ :: _ => fst mr end + acc) 0 l) by (apply IH; intros m' r' H'; apply Hb; right; exact H').
+    destruct (Hb mu r (or_introl eq_refl)) as [Hm _]. destruct r; lia. }
+  assert (Hqb: 0 <= R q /\ R q <= S * first_prefs pr m).
+  { rewrite Rq. destruct (cf_integer_quota cfg).
+    - assert (Hd: 2 * (ballot_total pr / (1 + 1)) <= ballot_total pr) by (apply (Z.mul_div_le (ballot_total pr) 2); lia).
+      assert (Hd0: 0 <= ballot_total pr / (1 + 1)) by (apply Z.div_pos; lia).
+      assert (Hf: 1 + ballot_total pr / (1 + 1) <= first_prefs pr m) by lia. split; [nia|]. rewrite (Z.mul_comm S). apply Z.mul_le_mono_nonneg_r; lia.
+    - assert (Hd: 2 * (ballot_total pr * S / (1 + 1)) <= ballot_total pr * S) by (apply (Z.mul_div_le (ballot_total pr * S) 2); lia).
+      assert (Hd0: 0 <= ballot_total pr * S / (1 + 1)) by (apply Z.div_pos; nia).
+      assert (Hp: S * (ballot_total pr + 1) <= S * (2 * first_prefs pr m)) by (apply Z.mul_le_mono_nonneg_l; lia). lia. }
+  destruct Hqb as [Hq0 Hq1].
+  assert (Ht: triple (est A) (@crashed A) (fun s0 => s0 = init_state A cfg pr) (count_cmd A cfg RWigm)
+            (SatE A m) (fun _ => False) (fun _ => False)).
+  { unfold count_cmd. eapply t_seq with (M := fun s0 => Pre A S ZL (S * ballot_total pr) s0 /\ (forall c, In c (cands s0) -> cst c <> Elected) /\ HopM A m s0 /\
+                                                       R q <= stand A S ZL (ballots s0) m).
+    - apply t_do. intros s0 ->. destruct (pre2_init A S ZL cfg Hex pr Hwf) as [P Hne]. destruct (init_state_shape A cfg pr) as (Ec & Eb & _).
+      split; [exact P|split; [exact Hne|split]].
+      + exists (with_vote (init_cand A pc) (V0' A)). split; [|split; [exact Epc|cbn [cst with_vote init_cand]; rewrite Hwd; reflexivity]].
+        unfold zero_votes. cbn [cands set_cands]. rewrite Ec, map_map. apply in_map_iff. exists pc. split; [reflexivity|exact Hpc].
+      + unfold zero_votes. cbn [ballots set_cands]. rewrite Eb, (stand_mk pr m Hwf). exact Hq1.
+    - eapply t_seq with (M := SatE A m); [cbn [rule_cmd]; apply (wigm_one_seat A S ZL cfg Hex m (S * ballot_total pr) Hseat _ _ q Eq Hq0)|].
+      apply t_do. intros s0 Hs c Hc Em. rewrite (Status.cands_log A cfg) in Hc. exact (Hs c Hc Em). }
   specialize (Ht fuel _ s k eq_refl He). destruct k; try contradiction. exact Ht.
 Qed.
 End MajCount.
